@@ -139,7 +139,8 @@ CHECKS.update({
              "statement skeletons (token classes of the first, operator spellings and joint bits of both symbolic) S1, S2 and S1 S2 are parsed "
              "and compared the same way, which reaches boundaries the windows cannot (`{ x; } (a);`, `x = y; -x;`).",
         note="Trusted: MIR dump, stubs, z3. Bounds: windows of <= 3 (quick) / 4 (thorough) tokens, every split point, full alphabet, joint bits "
-             "symbolic; 4096 (quick) / 38809 ordered skeleton pairs of <= 14 tokens each.",
+             "symbolic; 4753 (quick) / ~24 k ordered skeleton pairs of <= 14 tokens each (file level, and gate / def / if / while / for / case bodies "
+             "for the boundary-sensitive second statements).",
         technique=MC, design="6/C16"),
 })
 
@@ -155,8 +156,9 @@ CHECKS.update({
              "by (function, message, skeleton).",
         note="Trusted: rowan tree model (ordered tree built from the parser's own events), hashbrown map model, string/text-range models, "
              "MIR dump, z3; engine validated differentially against the native pipeline on the repository's own test programs (vf/s2validate). "
-             "Bounds: one statement after the preamble, expression depth 0 (quick) / 1 (thorough); skeletons with <= 600 / 8000 slot "
-             "combinations completely, larger ones as Hamming balls of radius 2 / 3 around three base assignments; one spelling per literal class.",
+             "Bounds: one statement after the preamble, expression depth 0 (quick) / 1 (thorough); skeletons with <= 600 / 3000 slot "
+             "combinations completely, larger ones as Hamming balls of radius 2 around three base assignments; one spelling per literal class, "
+             "four spellings of pragma / annotation lines.",
         technique=S2, design="6/C03"),
 })
 CHECKS.update({
